@@ -136,6 +136,10 @@ def r_fmt_scan(ctx, rep):
     # P5 inside brackets (colour, condition, locale, elapsed) no letter makes the format a calendar date/time
     check("bracketed", [(s, False, False, a, b) for s in CHARS if s not in ('_', '\\', '"', ';', '[', ']') for a in B for b in (1, 2)],
           lambda eff, g: "return DateTime" not in eff, "never `return CellFormat::DateTime` while brackets > 0")
+    # P5b ... nor arms the sticky am/pm state (`[$-40A]`, `[Black]`, `[Magenta]` contain an `a`): once set it
+    # disables the date-letter arm for the rest of the section
+    check("bracketed-ampm", [(s, False, False, False, b) for s in CHARS if s not in ('_', '\\', '"', ';', '[', ']') for b in (1, 2)],
+          lambda eff, g: "ap=True" not in eff, "never `ap = true` while brackets > 0")
     # P6 a date/time letter outside quotes, escapes and brackets makes it a date/time format
     check("date-letter", [(s, False, False, False, 0) for s in sorted(DATE_LETTERS)],
           lambda eff, g: eff == {"return DateTime"}, "`return CellFormat::DateTime`")
@@ -151,7 +155,7 @@ def r_fmt_scan(ctx, rep):
     check("close-bracket", [(']', False, False, a, b) for a in B for b in (1, 2)],
           lambda eff, g: (eff == {"brackets=expr"} or eff == {"brackets-="} or (g and eff == {"return TimeDelta"})), "`brackets -= 1` (or TimeDelta when an elapsed token was just read)")
 
-    clauses = ["escaped", "quoted", "closing-quote", "opening-quote", "escape-start", "section-end", "bracketed", "date-letter", "am-pm", "plain", "open-bracket", "close-bracket"]
+    clauses = ["escaped", "quoted", "closing-quote", "opening-quote", "escape-start", "section-end", "bracketed", "bracketed-ampm", "date-letter", "am-pm", "plain", "open-bracket", "close-bracket"]
     for c in clauses:
         key = "formats::detect_custom_number_format|R-FMT-SCAN|%s" % c
         if c in bad:
